@@ -25,7 +25,7 @@ PRODUCERS = {   # name -> (pre statements, kind, expression)
     "bundle-each": ([("decl", "Bundle", "bb", BUN)], "Bundle", B("*", V("bb"), I(2))),
     "bundle-filter": ([("decl", "Bundle", "bb", BUN)], "Bundle", ("cond", B(">", V("bb"), I(1)), V("bb"))),
 }
-CONSUMPTION = ["unconsumed", "input-aliased", "input-through-func-local", "alias-param-clash", "alias-local-clash", "repeated-anonymously", "consumed-once", "alias-first-consumed", "alias-both-unconsumed", "consumed-in-func",
+CONSUMPTION = ["unconsumed", "alias-and-entity", "entity-then-reader", "input-aliased", "input-through-func-local", "alias-param-clash", "alias-local-clash", "repeated-anonymously", "consumed-once", "alias-first-consumed", "alias-both-unconsumed", "consumed-in-func",
                "consumed-in-loop", "twice-same-expr", "two-outputs"]
 VAL = {"a": 5, "c": 3, "x": 2, "y": 6}
 
@@ -50,6 +50,19 @@ def mk(pname, cons, optimize):
         e2 = ("call", "g", [V("r")])
         body.append(("decl", "Signal", "q", e2))
         outs = {"r2": V("r"), "q": e2}
+    elif cons in ("alias-and-entity", "entity-then-reader"):
+        # the value enables an entity (a simple comparison is inlined into the entity) AND is read as a signal:
+        # by an unconsumed alias, or by a statement that comes after the entity
+        if not scalar:
+            return None
+        lamp = [("place", "lamp", "small-lamp", I(10), I(20), None), ("prop", "lamp", "enable", V("r"))]
+        if cons == "alias-and-entity":
+            body += [("decl", "Signal", "r2", V("r"))] + lamp
+            outs = {"r2": V("r")}
+        else:
+            e2 = B("*", V("r"), I(7))
+            body += lamp + [("decl", "Signal", "q", e2)]
+            outs = {"q": e2}
     elif cons in ("input-aliased", "input-through-func-local"):
         # the typed input `a` is bound to a second name: by an unconsumed top-level alias, or by a local of a called
         # function; the input must stay findable under ITS name
@@ -123,7 +136,7 @@ class C20(core.Check):
     level = "exploration"
     rule = ("every producer kind (typed/untyped constant, arithmetic, decider, ':' decider, projection, memory read, "
             "latch read, wire merge, function return, bundle constant / inputs / each / filter) x every consumption "
-            "pattern (unconsumed, a typed input aliased under a second top-level name / bound to a function local, consumed once, alias with one/both names unconsumed, consumed only in a function / a "
+            "pattern (unconsumed, enabling an entity while also read through an alias / by a later statement, a typed input aliased under a second top-level name / bound to a function local, consumed once, alias with one/both names unconsumed, consumed only in a function / a "
             "loop, same expression under two names, fan-out to two outputs) x optimise on/off; for every unconsumed "
             "top-level name: a labelled producer (name and source line), exactly one anchor on the producer's output "
             "network (or the labelled constant combinator itself) and the reference value on the result's own signal; "
